@@ -34,7 +34,7 @@ def _npoly(item):
 
 STRUCTURE_KEYS = ("item", "window", "waters", "damage", "rename", "chains", "input_name",
                   "lig_het", "lig_resname", "lig_drop_h", "bad_records", "renumber",
-                  "water_name", "columns", "dimer_same_id", "sym_waters")
+                  "water_name", "columns", "dimer_same_id", "sym_waters", "dup_water")
 
 
 TITRATABLE = ("LYS", "ASP", "GLU", "HIS", "TYR", "CYS", "ARG")
@@ -136,6 +136,10 @@ def gen_cfg(rng, structure=None):
             cfg["damage"] = (cfg.get("damage") or []) + [[nres - 1, "add_oxt"]]
         if rng.random() < 0.06 and not cfg.get("chains"):
             cfg["dimer_same_id"] = True
+        if rng.random() < 0.06:
+            cfg["dup_water"] = True  # two atoms at distance zero (degenerate numerics)
+        if rng.random() < 0.06:
+            cfg["damage"] = (cfg.get("damage") or []) + [[rng.randint(0, nres - 1), "coincide"]]
         if rng.random() < 0.08:
             # exact geometric ties (symmetric water groups)
             cfg["sym_waters"] = rng.choice([2, 4, 8])
@@ -424,7 +428,30 @@ def feature_families(seed, quick):
         fams.append(fam)
         if quick:
             break
+    fams.append(canary_cfgs())
     return fams
+
+
+def canary_cfgs():
+    """Runs that succeed but pass through degenerate numerics (two atoms at distance zero:
+    0/0 in normalisation and angle code, silently NaN).  Their outcome is the first to
+    change when an earlier run leaves process-global state of the numeric library or of the
+    warnings machinery behind (np.seterr, warning filters turned into errors, ...), so they
+    also serve as the follow-up run of every abort sweep."""
+    return [
+        {"item": "1AJJ.pdb", "window": [0, 10], "waters": 4, "dup_water": True,
+         "argv": ["--ff=AMBER"]},
+        {"item": "1AJJ.pdb", "window": [0, 10], "waters": 4, "dup_water": True,
+         "argv": ["--ff=AMBER", "--noopt"]},
+        {"item": "1BX8.pdb", "window": [5, 12], "damage": [[3, "coincide"], [7, "coincide"]],
+         "argv": ["--ff=PARSE", "--nodebump", "--noopt"]},
+        {"item": "1BX8.pdb", "window": [5, 12], "damage": [[3, "coincide"], [7, "coincide"]],
+         "argv": ["--ff=PARSE", "--nodebump"]},
+        # the same degenerate structures on paths where they fail (status must not change)
+        {"item": "1AJJ.pdb", "window": [10, 10], "damage": [[5, "coincide"]],
+         "argv": ["--ff=AMBER"]},
+        {"item": "cterm_hid.pdb", "dup_water": True, "argv": ["--ff=PARSE"]},
+    ]
 
 
 def titration_matrix_families(seed):
@@ -1058,6 +1085,7 @@ def main(tier, seed):
     # aborted in the middle of every stage, each abort followed by a normal run
     sweep_bases = [cands[i] for i in picked[: (4 if quick else 40)]]
     pool_keys = {corpus.cfg_key(c): i for i, c in enumerate(pool)}
+    canaries = [c for c in canary_cfgs()[:4] if corpus.cfg_key(c) in pool_keys]
     n_sweeps = 0
     for si, A in enumerate(sweep_bases):
         if corpus.cfg_key(A) not in pool_keys:
@@ -1065,13 +1093,15 @@ def main(tier, seed):
         fam = next((f for f in families if pool_keys[corpus.cfg_key(A)] in f), [])
         others = [A] + [pool[i] for i in fam if pool[i] is not A][:1] + [
             pool[matrix_idx[(si * 7) % len(matrix_idx)]]] if matrix_idx else [A]
+        others = others + canaries[si % 2::2]
         hists.append({"id": f"ha{si}", "kind": "c11.abort_sweep", "seed": seed * 1_000_003 + 5000 + si,
                       "cfg": A, "others": others, "max_aborts": 25 if quick else 80,
                       "ops": [None] * 80, "pool": []})
         n_sweeps += 1
     for fi, fam in enumerate(abort_fams):
         for mi, ai in enumerate(fam):
-            others = [pool[fam[(mi + d) % len(fam)]] for d in (1, 2, 3)] + [pool[ai]]
+            others = [pool[fam[(mi + d) % len(fam)]] for d in (1, 2, 3)] + [pool[ai]] + \
+                canaries[(fi + mi) % 2::2]
             hists.append({"id": f"ham{fi}_{mi}", "kind": "c11.abort_sweep",
                           "seed": seed * 1_000_003 + 7000 + fi * 50 + mi, "cfg": pool[ai],
                           "others": others, "max_aborts": 20 if quick else 80,
